@@ -399,12 +399,12 @@ Qed.
 
 (* ================================================================ the issuing rule *)
 
-Lemma next_addresses_ok : forall gap used st i st',
-  next_addresses gap used st = KOk (i, st') ->
+Lemma next_addresses_ok : forall fx gap used st i st',
+  next_addresses fx gap used st = KOk (i, st') ->
   i = ks_next_e st /\ ks_next_e st' = i + 1 /\ ks_next_i st' = ks_next_i st /\
   ks_pubs st' = ks_pubs st ++ [(false, i)] /\ ks_index st' = (i, false) :: ks_index st.
 Proof.
-  intros gap used st i st' H. unfold next_addresses in H.
+  intros fx gap used st i st' H. unfold next_addresses in H.
   destruct (max_addresses <? u32 (1 + ks_next_e st)); [discriminate|].
   destruct (gap <? 1); [discriminate|].
   match type of H with (if ?c then _ else _) = _ => destruct c end; [discriminate|].
@@ -412,11 +412,11 @@ Proof.
   inversion H. subst. cbn. auto.
 Qed.
 
-Lemma window_used_spec : forall l used len start,
-  window_used l used start len = true <->
-  exists j, start <= j /\ j < start + N.of_nat len /\ idx_used l used j = true.
+Lemma window_used_spec : forall fx l used len start,
+  window_used fx l used start len = true <->
+  exists j, start <= j /\ j < start + N.of_nat len /\ idx_used fx l used j = true.
 Proof.
-  intros l used len. induction len as [|len IH]; intros start.
+  intros fx l used len. induction len as [|len IH]; intros start.
   - cbn. split; [discriminate | intros (j & H1 & H2 & _); lia].
   - cbn [window_used]. rewrite orb_true_iff, IH. split.
     + intros [H|(j & H1 & H2 & H3)].
@@ -431,14 +431,14 @@ Proof. intros. unfold u32. apply N.mod_small. assumption. Qed.
 
 (* the exact condition under which a request is refused with "gap limit", in terms of what the
    index map shows for the gap window (child numbers, not branches: D3) *)
-Lemma gap_refusal_index : forall gap used st,
+Lemma gap_refusal_index : forall fx gap used st,
   ks_next_e st < max_addresses ->
-  (next_addresses gap used st = KErr EGapLimit <->
+  (next_addresses fx gap used st = KErr EGapLimit <->
    gap = 0 \/ (gap <= ks_next_e st /\
-               forall j, ks_next_e st - gap <= j -> j < ks_next_e st -> idx_used (ks_index st) used j = false)) /\
-  (next_addresses gap used st <> KErr EGapLimit -> exists st', next_addresses gap used st = KOk (ks_next_e st, st')).
+               forall j, ks_next_e st - gap <= j -> j < ks_next_e st -> idx_used fx (ks_index st) used j = false)) /\
+  (next_addresses fx gap used st <> KErr EGapLimit -> exists st', next_addresses fx gap used st = KOk (ks_next_e st, st')).
 Proof.
-  intros gap used st Hn. unfold next_addresses. set (n := ks_next_e st) in *.
+  intros fx gap used st Hn. unfold next_addresses. set (n := ks_next_e st) in *.
   unfold max_addresses in Hn.
   assert (Hsmall : u32 (1 + n) = 1 + n) by (apply u32_small; unfold two32; lia).
   assert (Hsmall' : u32 (n + 1) = n + 1) by (apply u32_small; unfold two32; lia).
@@ -455,15 +455,15 @@ Proof.
       rewrite En0. cbn [negb andb].
       assert (Hst : u32 (n + 1 - gap - 1) = n - gap) by (rewrite u32_small; unfold two32; lia).
       rewrite Hst. replace (n - (n - gap)) with gap by lia.
-      destruct (window_used (ks_index st) used (n - gap) (N.to_nat gap)) eqn:W; cbn [negb].
+      destruct (window_used fx (ks_index st) used (n - gap) (N.to_nat gap)) eqn:W; cbn [negb].
       * rewrite Eh. apply window_used_spec in W. destruct W as (j & H1 & H2 & H3).
         rewrite N2Nat.id in H2.
         split; [|intros _; eexists; reflexivity].
         split; [discriminate|]. intros [H|[_ H]]; [lia|]. rewrite H in H3; [discriminate | lia | lia].
       * split; [|intros H; congruence].
         split; [|reflexivity]. intros _. right. split; [lia|]. intros j H1 H2.
-        destruct (idx_used (ks_index st) used j) eqn:U; [|reflexivity].
-        assert (W' : window_used (ks_index st) used (n - gap) (N.to_nat gap) = true).
+        destruct (idx_used fx (ks_index st) used j) eqn:U; [|reflexivity].
+        assert (W' : window_used fx (ks_index st) used (n - gap) (N.to_nat gap) = true).
         { apply window_used_spec. exists j. rewrite N2Nat.id. split; [lia|]. split; [lia | exact U]. }
         congruence.
     + apply N.ltb_ge in Egn. rewrite andb_false_r. cbn [andb]. rewrite Eh.
@@ -471,9 +471,10 @@ Proof.
       split; [discriminate|]. intros [H|[H _]]; lia.
 Qed.
 
-(* only external addresses: the index map is the identity on [0, next) *)
-Definition index_ext (st : kstate) : Prop :=
-  forall j, j < ks_next_e st -> idx_lookup (ks_index st) j = Some false.
+(* the index map answers "external address" for every child number below the counter: with the code
+   as found this needs a keystore without internal addresses, with the repaired code it always holds *)
+Definition index_good (fx : bool) (st : kstate) : Prop :=
+  forall j, j < ks_next_e st -> idx_lookup_br fx (ks_index st) false j = Some false.
 
 Lemma ext_window_used_spec : forall used start len,
   ext_window_used used start len = true <-> exists j, start <= j /\ j < start + N.of_nat len /\ used j = true.
@@ -500,13 +501,13 @@ Proof.
     rewrite H2 in Hc; [discriminate | lia | lia].
 Qed.
 
-Lemma gap_refusal_ext : forall gap used st,
-  ks_next_e st < max_addresses -> index_ext st ->
-  (next_addresses gap used st = KErr EGapLimit <->
+Lemma gap_refusal_ext : forall fx gap used st,
+  ks_next_e st < max_addresses -> index_good fx st ->
+  (next_addresses fx gap used st = KErr EGapLimit <->
    gap = 0 \/ spec_refuse gap (used false) (ks_next_e st) = true) /\
-  (next_addresses gap used st <> KErr EGapLimit -> exists st', next_addresses gap used st = KOk (ks_next_e st, st')).
+  (next_addresses fx gap used st <> KErr EGapLimit -> exists st', next_addresses fx gap used st = KOk (ks_next_e st, st')).
 Proof.
-  intros gap used st Hn Hx. destruct (gap_refusal_index gap used st Hn) as [H1 H2]. split; [|exact H2].
+  intros fx gap used st Hn Hx. destruct (gap_refusal_index fx gap used st Hn) as [H1 H2]. split; [|exact H2].
   rewrite H1, spec_refuse_spec. split.
   - intros [H|[Ha Hb]]; [left; exact H | right]. split; [exact Ha|]. intros j Hj1 Hj2.
     specialize (Hb j Hj1 Hj2). unfold idx_used in Hb. rewrite (Hx j Hj2) in Hb. exact Hb.
@@ -514,20 +515,20 @@ Proof.
     unfold idx_used. rewrite (Hx j Hj2). apply Hb; assumption.
 Qed.
 
-Lemma issue_ok_iff : forall gap used st,
-  ks_next_e st < max_addresses -> index_ext st ->
-  ((exists st', next_addresses gap used st = KOk (ks_next_e st, st')) <-> issue_ok gap (used false) (ks_next_e st) = true) /\
-  (forall e, next_addresses gap used st = KErr e -> e = EGapLimit).
+Lemma issue_ok_iff : forall fx gap used st,
+  ks_next_e st < max_addresses -> index_good fx st ->
+  ((exists st', next_addresses fx gap used st = KOk (ks_next_e st, st')) <-> issue_ok gap (used false) (ks_next_e st) = true) /\
+  (forall e, next_addresses fx gap used st = KErr e -> e = EGapLimit).
 Proof.
-  intros gap used st Hn Hx. destruct (gap_refusal_ext gap used st Hn Hx) as [H1 H2].
+  intros fx gap used st Hn Hx. destruct (gap_refusal_ext fx gap used st Hn Hx) as [H1 H2].
   unfold issue_ok. rewrite andb_true_iff, N.leb_le, negb_true_iff. split; [split|].
   - intros [st' Hs]. destruct (spec_refuse gap (used false) (ks_next_e st)) eqn:S.
-    + assert (next_addresses gap used st = KErr EGapLimit) by (apply H1; right; reflexivity). congruence.
+    + assert (next_addresses fx gap used st = KErr EGapLimit) by (apply H1; right; reflexivity). congruence.
     + split; [|reflexivity]. destruct (N.eq_dec gap 0) as [->|]; [|lia].
-      assert (next_addresses 0 used st = KErr EGapLimit) by (apply H1; left; reflexivity). congruence.
+      assert (next_addresses fx 0 used st = KErr EGapLimit) by (apply H1; left; reflexivity). congruence.
   - intros [Hg Hs]. apply H2. intro Hc. apply H1 in Hc. destruct Hc as [Hc|Hc]; [lia | congruence].
   - intros e He. destruct e; try reflexivity; exfalso;
-      (assert (Hne : next_addresses gap used st <> KErr EGapLimit) by congruence;
+      (assert (Hne : next_addresses fx gap used st <> KErr EGapLimit) by congruence;
        apply H2 in Hne; destruct Hne as [st' Hs]; congruence).
 Qed.
 
@@ -535,11 +536,19 @@ Lemma idx_lookup_cons : forall l i b j,
   idx_lookup ((i, b) :: l) j = if i =? j then Some b else idx_lookup l j.
 Proof. intros. unfold idx_lookup. cbn [find fst snd]. destruct (i =? j); reflexivity. Qed.
 
-Lemma index_ext_next : forall gap used st i st',
-  index_ext st -> next_addresses gap used st = KOk (i, st') -> index_ext st'.
+Lemma idx_lookup_br_cons : forall fx l i j,
+  idx_lookup_br fx ((i, false) :: l) false j = if i =? j then Some false else idx_lookup_br fx l false j.
 Proof.
-  intros gap used st i st' Hx H. apply next_addresses_ok in H. destruct H as (Hi & Hn & _ & _ & Hidx).
-  intros j Hj. rewrite Hidx, idx_lookup_cons. destruct (i =? j) eqn:E; [reflexivity|].
+  intros fx l i j. unfold idx_lookup_br. destruct fx.
+  - cbn [existsb fst snd Bool.eqb]. rewrite andb_true_r. destruct (i =? j); reflexivity.
+  - apply idx_lookup_cons.
+Qed.
+
+Lemma index_good_next : forall fx gap used st i st',
+  index_good fx st -> next_addresses fx gap used st = KOk (i, st') -> index_good fx st'.
+Proof.
+  intros fx gap used st i st' Hx H. apply next_addresses_ok in H. destruct H as (Hi & Hn & _ & _ & Hidx).
+  intros j Hj. rewrite Hidx, idx_lookup_br_cons. destruct (i =? j) eqn:E; [reflexivity|].
   apply N.eqb_neq in E. apply Hx. lia.
 Qed.
 
@@ -548,10 +557,10 @@ Qed.
 Definition ks_wf (ks : kstate) : Prop := forall i, In (false, i) (ks_pubs ks) <-> i < ks_next_e ks.
 Definition ks_ext_only (ks : kstate) : Prop := forall i, ~ In (true, i) (ks_pubs ks).
 
-Lemma ks_wf_next : forall gap used st i st',
-  ks_wf st -> next_addresses gap used st = KOk (i, st') -> ks_wf st' /\ ~ In (false, i) (ks_pubs st).
+Lemma ks_wf_next : forall fx gap used st i st',
+  ks_wf st -> next_addresses fx gap used st = KOk (i, st') -> ks_wf st' /\ ~ In (false, i) (ks_pubs st).
 Proof.
-  intros gap used st i st' Hwf H. apply next_addresses_ok in H. destruct H as (Hi & Hn & _ & Hp & _).
+  intros fx gap used st i st' Hwf H. apply next_addresses_ok in H. destruct H as (Hi & Hn & _ & Hp & _).
   split.
   - intros j. rewrite Hp, in_app_iff, Hn, (Hwf j). cbn [In]. split.
     + intros [H|[H|[]]]; [lia | inversion H; lia].
@@ -559,10 +568,10 @@ Proof.
   - intros Hin. apply Hwf in Hin. lia.
 Qed.
 
-Lemma ks_ext_only_next : forall gap used st i st',
-  ks_ext_only st -> next_addresses gap used st = KOk (i, st') -> ks_ext_only st'.
+Lemma ks_ext_only_next : forall fx gap used st i st',
+  ks_ext_only st -> next_addresses fx gap used st = KOk (i, st') -> ks_ext_only st'.
 Proof.
-  intros gap used st i st' Hx H. apply next_addresses_ok in H. destruct H as (_ & _ & _ & Hp & _).
+  intros fx gap used st i st' Hx H. apply next_addresses_ok in H. destruct H as (_ & _ & _ & Hp & _).
   intros j Hin. rewrite Hp, in_app_iff in Hin. destruct Hin as [Hin|[Hin|[]]]; [eapply Hx; exact Hin | discriminate].
 Qed.
 
@@ -575,19 +584,31 @@ Proof.
   apply IH. intros k' Hk'. apply Hl. right. exact Hk'.
 Qed.
 
-Lemma index_ext_reload : forall st, ks_wf st -> ks_ext_only st -> index_ext (ks_reload st).
+Lemma load_index_has_ext : forall pubs j,
+  In (false, j) pubs -> existsb (fun e : N * bool => (fst e =? j) && Bool.eqb (snd e) false) (load_index pubs) = true.
 Proof.
-  intros st Hwf Hx j Hj. cbn [ks_reload ks_index ks_next_e] in *. unfold load_index.
-  assert (E : filter (fun k : bool * N => fst k) (ks_pubs st) = []).
-  { destruct (filter (fun k : bool * N => fst k) (ks_pubs st)) as [|[b i] l] eqn:F; [reflexivity|].
-    assert (Hin : In (b, i) (filter (fun k : bool * N => fst k) (ks_pubs st))) by (rewrite F; left; reflexivity).
-    apply filter_In in Hin. destruct Hin as [Hin Hb]. cbn in Hb. subst b. exfalso. eapply Hx. exact Hin. }
-  rewrite E. cbn [map app]. rewrite idx_lookup_map_ext.
-  - assert (Ex : existsb (fun k : bool * N => snd k =? j) (filter (fun k : bool * N => negb (fst k)) (ks_pubs st)) = true).
-    { apply existsb_exists. exists (false, j). split; [|cbn; apply N.eqb_refl].
-      apply filter_In. split; [apply Hwf; exact Hj | reflexivity]. }
-    rewrite Ex. reflexivity.
-  - intros k Hk. apply filter_In in Hk. destruct Hk as [_ Hk]. destruct (fst k); [discriminate | reflexivity].
+  intros pubs j Hin. apply existsb_exists. exists (j, false). split.
+  - unfold load_index. apply in_app_iff. right. apply in_map_iff. exists (false, j). split; [reflexivity|].
+    apply filter_In. split; [exact Hin | reflexivity].
+  - cbn [fst snd Bool.eqb]. rewrite N.eqb_refl. reflexivity.
+Qed.
+
+Lemma index_good_reload : forall fx st,
+  ks_wf st -> (fx = true \/ ks_ext_only st) -> index_good fx (ks_reload st).
+Proof.
+  intros fx st Hwf Hx j Hj. cbn [ks_reload ks_index ks_next_e] in *. unfold idx_lookup_br. destruct fx.
+  - rewrite load_index_has_ext; [reflexivity | apply Hwf; exact Hj].
+  - destruct Hx as [Hx|Hx]; [discriminate|]. unfold load_index.
+    assert (E : filter (fun k : bool * N => fst k) (ks_pubs st) = []).
+    { destruct (filter (fun k : bool * N => fst k) (ks_pubs st)) as [|[b i] l] eqn:F; [reflexivity|].
+      assert (Hin : In (b, i) (filter (fun k : bool * N => fst k) (ks_pubs st))) by (rewrite F; left; reflexivity).
+      apply filter_In in Hin. destruct Hin as [Hin Hb]. cbn in Hb. subst b. exfalso. eapply Hx. exact Hin. }
+    rewrite E. cbn [map app]. rewrite idx_lookup_map_ext.
+    + assert (Ex : existsb (fun k : bool * N => snd k =? j) (filter (fun k : bool * N => negb (fst k)) (ks_pubs st)) = true).
+      { apply existsb_exists. exists (false, j). split; [|cbn; apply N.eqb_refl].
+        apply filter_In. split; [apply Hwf; exact Hj | reflexivity]. }
+      rewrite Ex. reflexivity.
+    + intros k Hk. apply filter_In in Hk. destruct Hk as [_ Hk]. destruct (fst k); [discriminate | reflexivity].
 Qed.
 
 (* ================================================================ the discovery scan *)
@@ -675,25 +696,29 @@ Proof.
   - intros H. exists (N.to_nat i). split; [lia|]. apply in_seq. lia.
 Qed.
 
-Lemma ks_restore_ext : forall fuel gap hint_e used ks,
-  ks_restore fuel gap hint_e 0 used = Some ks ->
-  ks_wf ks /\ ks_ext_only ks /\ index_ext ks /\ ks_next_i ks = 0 /\
+Lemma ks_restore_good : forall fuel gap hint_e hint_i used ks,
+  ks_restore fuel gap hint_e hint_i used = Some ks ->
+  ks_wf ks /\ (hint_i = 0 -> ks_ext_only ks) /\
+  (forall fx, fx = true \/ hint_i = 0 -> index_good fx ks) /\
   restore_branch fuel gap (if hint_e =? 0 then 1 else hint_e) (used false) = Some (ks_next_e ks).
 Proof.
-  intros fuel gap hint_e used ks H. unfold ks_restore in H.
-  change (restore_branch fuel gap 0 (used true)) with (Some 0) in H.
+  intros fuel gap hint_e hint_i used ks H. unfold ks_restore in H.
+  destruct (restore_branch fuel gap hint_i (used true)) as [ni|] eqn:Ri; [|discriminate].
   destruct (restore_branch fuel gap (if hint_e =? 0 then 1 else hint_e) (used false)) as [ne|] eqn:R; [|discriminate].
   inversion H. subst ks. clear H. cbn [ks_next_e ks_next_i ks_pubs ks_index].
-  change (seqN 0) with (@nil N). cbn [map]. rewrite app_nil_r.
-  assert (Hwf : forall i, In (false, i) (map (fun i0 : N => (false, i0)) (seqN ne)) <-> i < ne).
-  { intros i. rewrite in_map_iff. split.
-    - intros (k & Hk & Hin). inversion Hk. subst. apply in_seqN. exact Hin.
-    - intros Hi. exists i. split; [reflexivity | apply in_seqN; exact Hi]. }
-  assert (Hxo : forall i, ~ In (true, i) (map (fun i0 : N => (false, i0)) (seqN ne))).
-  { intros i Hin. apply in_map_iff in Hin. destruct Hin as (k & Hk & _). discriminate. }
-  split; [exact Hwf|]. split; [exact Hxo|]. split; [|split; reflexivity].
-  pose (st := {| ks_next_e := ne; ks_next_i := 0; ks_pubs := map (fun i0 : N => (false, i0)) (seqN ne); ks_index := [] |}).
-  exact (index_ext_reload st Hwf Hxo).
+  set (pubs := map (fun i0 : N => (false, i0)) (seqN ne) ++ map (fun i0 : N => (true, i0)) (seqN ni)).
+  assert (Hwf : forall i, In (false, i) pubs <-> i < ne).
+  { intros i. unfold pubs. rewrite in_app_iff, !in_map_iff. split.
+    - intros [(k & Hk & Hin)|(k & Hk & _)]; [inversion Hk; subst; apply in_seqN; exact Hin | discriminate].
+    - intros Hi. left. exists i. split; [reflexivity | apply in_seqN; exact Hi]. }
+  assert (Hxo : hint_i = 0 -> forall i, ~ In (true, i) pubs).
+  { intros -> i Hin. unfold restore_branch in Ri. cbn in Ri. inversion Ri. subst ni.
+    unfold pubs in Hin. change (seqN 0) with (@nil N) in Hin. cbn [map] in Hin. rewrite app_nil_r in Hin.
+    apply in_map_iff in Hin. destruct Hin as (k & Hk & _). discriminate. }
+  split; [exact Hwf|]. split; [exact Hxo|]. split; [|reflexivity].
+  intros fx Hfx.
+  pose (st := {| ks_next_e := ne; ks_next_i := ni; ks_pubs := pubs; ks_index := [] |}).
+  apply (index_good_reload fx st Hwf). destruct Hfx as [->|Hi]; [left; reflexivity | right; exact (Hxo Hi)].
 Qed.
 
 Lemma restore_branch_complete : forall fuel gap hint used ne n,
@@ -801,6 +826,7 @@ Proof. intros A [|x l] [|k] H1 H2; try congruence; try lia. discriminate. Qed.
 Section Runs.
 Variable shf : bool -> N -> N.
 Hypothesis shf_inj : forall b i b' i', shf b i = shf b' i' -> b = b' /\ i = i'.
+Variable fx : bool.
 Variables gap maxun : N.
 
 Lemma mine_of_spec : forall ks sh, mine_of shf ks sh = true <-> exists k, In k (ks_pubs ks) /\ shf (fst k) (snd k) = sh.
@@ -811,7 +837,7 @@ Proof.
 Qed.
 
 Lemma api_is_new : forall used cls w r,
-  api_create_address shf gap maxun used cls w = KOk r -> new_address shf gap used cls w = KOk r.
+  api_create_address shf fx gap maxun used cls w = KOk r -> new_address shf fx gap used cls w = KOk r.
 Proof.
   intros used cls w r H. unfold api_create_address in H.
   destruct (cls && (maxun <=? unused_count (listing (if cls then 1 else 0) (w_recs w)))); [discriminate|].
@@ -820,12 +846,12 @@ Proof.
 Qed.
 
 Lemma new_address_ok : forall used cls w a w',
-  new_address shf gap used cls w = KOk (a, w') ->
-  exists ks', next_addresses gap used (w_ks w) = KOk (snd a, ks') /\ fst a = cls /\
+  new_address shf fx gap used cls w = KOk (a, w') ->
+  exists ks', next_addresses fx gap used (w_ks w) = KOk (snd a, ks') /\ fst a = cls /\
               w' = {| w_ks := ks'; w_recs := rec_put (w_recs w) cls (shf false (snd a)) 0 |}.
 Proof.
   intros used cls w a w' H. unfold new_address in H.
-  destruct (next_addresses gap used (w_ks w)) as [[i ks']|e] eqn:E; [|discriminate].
+  destruct (next_addresses fx gap used (w_ks w)) as [[i ks']|e] eqn:E; [|discriminate].
   inversion H. subst. exists ks'. cbn [fst snd]. auto.
 Qed.
 
@@ -845,10 +871,10 @@ Definition ev_ok (s : rstate) (e : ev) : Prop :=
 Fixpoint run_ok (s : rstate) (evs : list ev) : Prop :=
   match evs with
   | [] => True
-  | e :: rest => ev_ok s e /\ run_ok (rstep shf gap maxun s e) rest
+  | e :: rest => ev_ok s e /\ run_ok (rstep shf fx gap maxun s e) rest
   end.
 
-Definition run_from (s : rstate) (evs : list ev) : rstate := fold_left (rstep shf gap maxun) evs s.
+Definition run_from (s : rstate) (evs : list ev) : rstate := fold_left (rstep shf fx gap maxun) evs s.
 
 Record Inv (s : rstate) : Prop := {
   inv_ne : r_chain s <> [];
@@ -871,12 +897,12 @@ Proof. intros c sh stk H. unfold pays_any in H. apply orb_false_iff in H. destru
 
 Lemma Inv_new : forall s used cls a w',
   Inv s -> pays_any (r_chain s) (shf false (ks_next_e (w_ks (r_wal s)))) = false ->
-  new_address shf gap used cls (r_wal s) = KOk (a, w') ->
+  new_address shf fx gap used cls (r_wal s) = KOk (a, w') ->
   Inv {| r_wal := w'; r_chain := r_chain s; r_issued := a :: r_issued s |}.
 Proof.
   intros s used cls a w' HI Hfresh H. destruct HI as [Hne Hh Hr Hk Hz].
   apply new_address_ok in H. destruct H as (ks' & Hn & Hc & Hw). subst w'.
-  pose proof (next_addresses_ok _ _ _ _ _ Hn) as (Hi & Hnext & _ & Hp & _).
+  pose proof (next_addresses_ok _ _ _ _ _ _ Hn) as (Hi & Hnext & _ & Hp & _).
   pose proof (fresh_not_mine _ Hk) as Hnm. rewrite <- Hi in Hnm, Hfresh.
   assert (Hmine : forall sh, mine_of shf ks' sh = mine_of shf (w_ks (r_wal s)) sh || (shf false (snd a) =? sh)).
   { intro sh. unfold mine_of. rewrite Hp, existsb_app. cbn [existsb fst snd]. rewrite orb_false_r. reflexivity. }
@@ -913,14 +939,14 @@ Proof.
   split; [rewrite Hf; symmetry; apply firstn_skipn | auto].
 Qed.
 
-Lemma Inv_step : forall s e, Inv s -> ev_ok s e -> Inv (rstep shf gap maxun s e).
+Lemma Inv_step : forall s e, Inv s -> ev_ok s e -> Inv (rstep shf fx gap maxun s e).
 Proof.
   intros s e HI Hok. destruct e as [cls api node|new|]; cbn [rstep].
   - destruct Hok as [Hfresh _].
     destruct api.
-    + destruct (api_create_address shf gap maxun (oracle_of shf node) cls (r_wal s)) as [[a w']|err] eqn:E; [|exact HI].
+    + destruct (api_create_address shf fx gap maxun (oracle_of shf node) cls (r_wal s)) as [[a w']|err] eqn:E; [|exact HI].
       apply api_is_new in E. eapply Inv_new; eassumption.
-    + destruct (new_address shf gap (oracle_of shf node) cls (r_wal s)) as [[a w']|err] eqn:E; [|exact HI].
+    + destruct (new_address shf fx gap (oracle_of shf node) cls (r_wal s)) as [[a w']|err] eqn:E; [|exact HI].
       eapply Inv_new; eassumption.
   - destruct Hok as (Hk & Hf & Hhn). destruct HI as [Hne Hh Hr Hks Hz].
     destruct (sync_decomp (r_chain s) new Hne Hk Hf) as (p & rm & ad & Hp & Ho & Hn & Hrm & Had).
@@ -1063,7 +1089,7 @@ Qed.
 
 Lemma fresh_next : forall s used cls a w',
   Inv s -> pays_any (r_chain s) (shf false (ks_next_e (w_ks (r_wal s)))) = false ->
-  new_address shf gap used cls (r_wal s) = KOk (a, w') ->
+  new_address shf fx gap used cls (r_wal s) = KOk (a, w') ->
   a = (cls, ks_next_e (w_ks (r_wal s))) /\
   ~ In (false, snd a) (ks_pubs (w_ks (r_wal s))) /\
   mine_of shf (w_ks (r_wal s)) (shf false (snd a)) = false /\
@@ -1079,8 +1105,8 @@ Proof.
   intros s used cls a w' HI Hfresh H.
   pose proof (Inv_new s used cls a w' HI Hfresh H) as HI'.
   pose proof H as H0. apply new_address_ok in H0. destruct H0 as (ks' & Hn & Hc & Hw).
-  pose proof (next_addresses_ok _ _ _ _ _ Hn) as (Hi & Hnext & _ & Hp & _).
-  pose proof (ks_wf_next _ _ _ _ _ (inv_ks _ HI) Hn) as [_ Hnotin].
+  pose proof (next_addresses_ok _ _ _ _ _ _ Hn) as (Hi & Hnext & _ & Hp & _).
+  pose proof (ks_wf_next _ _ _ _ _ _ (inv_ks _ HI) Hn) as [_ Hnotin].
   assert (Hget : rec_get (w_recs w') cls (shf false (snd a)) = Some 0%Z) by (subst w'; apply rec_get_put_same).
   split; [destruct a; cbn [fst snd] in *; congruence|].
   split; [exact Hnotin|].
@@ -1104,18 +1130,18 @@ Proof. intros [|a l] b b' H Hle; [exact I|]. destruct H. split; [lia | assumptio
 
 Lemma issued_step : forall s e,
   decr (r_issued s) (ks_next_e (w_ks (r_wal s))) ->
-  decr (r_issued (rstep shf gap maxun s e)) (ks_next_e (w_ks (r_wal (rstep shf gap maxun s e)))).
+  decr (r_issued (rstep shf fx gap maxun s e)) (ks_next_e (w_ks (r_wal (rstep shf fx gap maxun s e)))).
 Proof.
   intros s e Hd. destruct e as [cls api node|new|]; cbn [rstep]; [| exact Hd | exact Hd].
-  assert (Hnew : forall a w', new_address shf gap (oracle_of shf node) cls (r_wal s) = KOk (a, w') ->
+  assert (Hnew : forall a w', new_address shf fx gap (oracle_of shf node) cls (r_wal s) = KOk (a, w') ->
                  decr (a :: r_issued s) (ks_next_e (w_ks w'))).
   { intros a w' H. apply new_address_ok in H. destruct H as (ks' & Hn & _ & Hw). subst w'.
     apply next_addresses_ok in Hn. destruct Hn as (Hi & Hnext & _). cbn [w_ks decr]. rewrite Hnext, Hi.
     split; [lia | exact Hd]. }
   destruct api.
-  - destruct (api_create_address shf gap maxun (oracle_of shf node) cls (r_wal s)) as [[a w']|err] eqn:E; [|exact Hd].
+  - destruct (api_create_address shf fx gap maxun (oracle_of shf node) cls (r_wal s)) as [[a w']|err] eqn:E; [|exact Hd].
     apply api_is_new in E. cbn [r_issued r_wal]. apply Hnew. exact E.
-  - destruct (new_address shf gap (oracle_of shf node) cls (r_wal s)) as [[a w']|err] eqn:E; [|exact Hd].
+  - destruct (new_address shf fx gap (oracle_of shf node) cls (r_wal s)) as [[a w']|err] eqn:E; [|exact Hd].
     cbn [r_issued r_wal]. apply Hnew. reflexivity.
 Qed.
 
@@ -1162,19 +1188,19 @@ Definition loses (s : rstate) (e : ev) (stk : bool) (sh : N) : Prop :=
 
 Lemma present_step : forall s e stk sh,
   Inv s -> rec_get (w_recs (r_wal s)) stk sh <> None -> ~ loses s e stk sh ->
-  rec_get (w_recs (r_wal (rstep shf gap maxun s e))) stk sh <> None.
+  rec_get (w_recs (r_wal (rstep shf fx gap maxun s e))) stk sh <> None.
 Proof.
   intros s e stk sh HI Hp Hnl. destruct e as [cls api node|new|]; cbn [rstep]; [| |exact Hp].
-  - assert (Hnew : forall a w', new_address shf gap (oracle_of shf node) cls (r_wal s) = KOk (a, w') ->
+  - assert (Hnew : forall a w', new_address shf fx gap (oracle_of shf node) cls (r_wal s) = KOk (a, w') ->
                    rec_get (w_recs w') stk sh <> None).
     { intros a w' H. apply new_address_ok in H. destruct H as (ks' & _ & _ & Hw). subst w'. cbn [w_recs].
       destruct (key_dec (stk, sh) (cls, shf false (snd a))) as [E|E].
       - inversion E. subst. rewrite rec_get_put_same. discriminate.
       - rewrite rec_get_put_other by exact E. exact Hp. }
     destruct api.
-    + destruct (api_create_address shf gap maxun (oracle_of shf node) cls (r_wal s)) as [[a w']|err] eqn:E; [|exact Hp].
+    + destruct (api_create_address shf fx gap maxun (oracle_of shf node) cls (r_wal s)) as [[a w']|err] eqn:E; [|exact Hp].
       apply api_is_new in E. cbn [r_wal]. eapply Hnew. exact E.
-    + destruct (new_address shf gap (oracle_of shf node) cls (r_wal s)) as [[a w']|err] eqn:E; [|exact Hp].
+    + destruct (new_address shf fx gap (oracle_of shf node) cls (r_wal s)) as [[a w']|err] eqn:E; [|exact Hp].
       cbn [r_wal]. eapply Hnew. reflexivity.
   - cbn [r_wal]. unfold wal_sync. cbn [w_recs]. apply connect_list_present.
     destruct (rec_get (w_recs (r_wal s)) stk sh) as [h|] eqn:G; [|congruence].
@@ -1186,7 +1212,7 @@ Qed.
 (* ---------------------------------------------------------------- the gap invariant along a history, discovery *)
 
 Definition ExtInv (s : rstate) : Prop :=
-  ks_ext_only (w_ks (r_wal s)) /\ index_ext (w_ks (r_wal s)).
+  (fx = true \/ ks_ext_only (w_ks (r_wal s))) /\ index_good fx (w_ks (r_wal s)).
 
 (* usage is monotone towards the final chain: an address paid when some request was served is still paid *)
 Definition run_mono (evs : list ev) (cfin : list block) : Prop :=
@@ -1197,28 +1223,29 @@ Lemma ext_step : forall s e u,
   Inv s -> ExtInv s -> ev_ok s e ->
   (forall cls api node, e = ENew cls api node -> forall j, pays_any node (shf false j) = true -> u j = true) ->
   gap_inv gap u (ks_next_e (w_ks (r_wal s))) ->
-  ExtInv (rstep shf gap maxun s e) /\ gap_inv gap u (ks_next_e (w_ks (r_wal (rstep shf gap maxun s e)))).
+  ExtInv (rstep shf fx gap maxun s e) /\ gap_inv gap u (ks_next_e (w_ks (r_wal (rstep shf fx gap maxun s e)))).
 Proof.
   intros s e u HI [Hx Hix] Hok Hmono Hg. destruct e as [cls api node|new|]; cbn [rstep].
   - destruct Hok as [_ Hmax].
-    assert (Hnew : forall a w', new_address shf gap (oracle_of shf node) cls (r_wal s) = KOk (a, w') ->
+    assert (Hnew : forall a w', new_address shf fx gap (oracle_of shf node) cls (r_wal s) = KOk (a, w') ->
                    ExtInv {| r_wal := w'; r_chain := r_chain s; r_issued := a :: r_issued s |} /\
                    gap_inv gap u (ks_next_e (w_ks w'))).
     { intros a w' H. apply new_address_ok in H. destruct H as (ks' & Hn & _ & Hw). subst w'. cbn [r_wal w_ks].
-      split; [split; [eapply ks_ext_only_next; eassumption | eapply index_ext_next; eassumption]|].
-      pose proof (next_addresses_ok _ _ _ _ _ Hn) as (Hi & Hnext & _). rewrite Hnext, Hi.
-      destruct (issue_ok_iff gap (oracle_of shf node) (w_ks (r_wal s)) Hmax Hix) as [Hiff _].
+      split; [split; [destruct Hx as [Hx|Hx]; [left; exact Hx | right; eapply ks_ext_only_next; eassumption]
+                     | eapply index_good_next; eassumption]|].
+      pose proof (next_addresses_ok _ _ _ _ _ _ Hn) as (Hi & Hnext & _). rewrite Hnext, Hi.
+      destruct (issue_ok_iff fx gap (oracle_of shf node) (w_ks (r_wal s)) Hmax Hix) as [Hiff _].
       eapply gap_inv_step; [|exact Hg|].
       - intros j Hj. eapply (Hmono cls api node eq_refl). exact Hj.
       - apply Hiff. exists ks'. rewrite <- Hi. exact Hn. }
     destruct api.
-    + destruct (api_create_address shf gap maxun (oracle_of shf node) cls (r_wal s)) as [[a w']|err] eqn:E; [|split; [split|]; assumption].
+    + destruct (api_create_address shf fx gap maxun (oracle_of shf node) cls (r_wal s)) as [[a w']|err] eqn:E; [|split; [split|]; assumption].
       apply api_is_new in E. cbn [r_wal]. apply Hnew. exact E.
-    + destruct (new_address shf gap (oracle_of shf node) cls (r_wal s)) as [[a w']|err] eqn:E; [|split; [split|]; assumption].
+    + destruct (new_address shf fx gap (oracle_of shf node) cls (r_wal s)) as [[a w']|err] eqn:E; [|split; [split|]; assumption].
       cbn [r_wal]. apply Hnew. reflexivity.
   - cbn [r_wal wal_sync w_ks]. split; [split|]; assumption.
   - cbn [r_wal wal_reload w_ks ks_reload ks_next_e]. split; [|exact Hg]. split; [exact Hx|].
-    apply index_ext_reload; [exact (inv_ks _ HI) | exact Hx].
+    apply index_good_reload; [exact (inv_ks _ HI) | exact Hx].
 Qed.
 
 Lemma run_gap_inv : forall evs s u,
@@ -1236,7 +1263,7 @@ Proof.
 Qed.
 
 Lemma ExtInv_init : forall g, ExtInv (rinit g).
-Proof. intros g. split; [intros i H; exact H | intros j Hj; cbn in Hj; lia]. Qed.
+Proof. intros g. split; [right; intros i H; exact H | intros j Hj; cbn in Hj; lia]. Qed.
 
 (* C12_discovery_complete *)
 Theorem discovery_complete : forall g evs cfin hint fuel w',
@@ -1256,7 +1283,7 @@ Proof.
   unfold wal_restore in Hr.
   destruct (ks_restore fuel gap hint 0 (oracle_of shf cfin)) as [ks|] eqn:K; [|discriminate].
   inversion Hr. subst w'. cbn [w_ks].
-  destruct (ks_restore_ext _ _ _ _ _ K) as (Hwf & _ & _ & _ & Hrb).
+  destruct (ks_restore_good _ _ _ _ _ _ K) as (Hwf & _ & _ & Hrb).
   apply Hwf. eapply restore_branch_complete; [| | exact Hinv | exact Hrb | exact Hj | exact Hpaid].
   - destruct (hint =? 0) eqn:E; [discriminate | apply N.eqb_neq in E; exact E].
   - exact Hov.
@@ -1301,7 +1328,7 @@ Lemma restore_Inv : forall fuel hint_e hint_i g rest w',
   b_height g = 0%Z -> b_txs g = [] -> heights_ok (g :: rest) ->
   wal_restore shf fuel gap hint_e hint_i (g :: rest) = Some w' ->
   Inv {| r_wal := w'; r_chain := g :: rest; r_issued := [] |} /\
-  (hint_i = 0 -> ExtInv {| r_wal := w'; r_chain := g :: rest; r_issued := [] |}).
+  (fx = true \/ hint_i = 0 -> ExtInv {| r_wal := w'; r_chain := g :: rest; r_issued := [] |}).
 Proof.
   intros fuel hint_e hint_i g rest w' Hg Htx Hh Hr. unfold wal_restore in Hr.
   destruct (ks_restore fuel gap hint_e hint_i (oracle_of shf (g :: rest))) as [ks|] eqn:K; [|discriminate].
@@ -1317,13 +1344,7 @@ Proof.
     destruct (negb stk && existsb (fun k : bool * N => shf (fst k) (snd k) =? sh) (ks_pubs ks)) eqn:E.
     - apply andb_true_iff in E. destruct E as [_ E]. split; [exact E|]. split; [lia|]. split; [intros; lia | intros; apply Hg0].
     - intros _. apply Hg0. }
-  assert (Hks : ks_wf ks).
-  { unfold ks_restore in K.
-    destruct (restore_branch fuel gap hint_i (oracle_of shf (g :: rest) true)) as [ni|]; [|discriminate].
-    destruct (restore_branch fuel gap (if hint_e =? 0 then 1 else hint_e) (oracle_of shf (g :: rest) false)) as [ne|]; [|discriminate].
-    inversion K. intros i. cbn [ks_pubs ks_next_e]. rewrite in_app_iff, !in_map_iff. split.
-    - intros [(k & Hk & Hin)|(k & Hk & _)]; [inversion Hk; subst; apply in_seqN; exact Hin | discriminate].
-    - intros Hi. left. exists i. split; [reflexivity | apply in_seqN; exact Hi]. }
+  destruct (ks_restore_good _ _ _ _ _ _ K) as (Hks & Hxo & Hgood & _).
   split.
   - constructor; cbn [r_chain r_wal w_ks w_recs].
     + discriminate.
@@ -1332,7 +1353,8 @@ Proof.
     + exact Hks.
     + intros sh _ H2. apply (connect_list_zero _ _ [g]) in H2; [|discriminate | exact Hh].
       unfold rs0 in H2. rewrite restore_rs0_get in H2. cbn in H2. discriminate.
-  - intros ->. destruct (ks_restore_ext _ _ _ _ _ K) as (_ & Hx & Hix & _). split; assumption.
+  - intros Hfx. split; [|apply Hgood; exact Hfx]. cbn [r_wal w_ks].
+    destruct Hfx as [Hfx|Hfx]; [left; exact Hfx | right; exact (Hxo Hfx)].
 Qed.
 
 End Runs.
@@ -1376,13 +1398,13 @@ Definition wl_evs : list ev := [ENew false false [wg]; ESync [wg; wl_b1]; ESync 
 
 Lemma listed_refuted_after_reorg :
   exists gap evs,
-    run_ok shf0 gap 1 (rinit wg) evs /\
-    let s := run_from shf0 gap 1 (rinit wg) evs in
+    run_ok shf0 true gap 1 (rinit wg) evs /\
+    let s := run_from shf0 true gap 1 (rinit wg) evs in
     r_issued s = [(false, 0)] /\
     listed (w_recs (r_wal s)) false (shf0 false 0) = false /\
     pays_any (r_chain s) (shf0 false 0) = false /\
     (* it was listed, with the flag set, while block 1 was on the chain *)
-    let s1 := run_from shf0 gap 1 (rinit wg) (firstn 2 evs) in
+    let s1 := run_from shf0 true gap 1 (rinit wg) (firstn 2 evs) in
     listed (w_recs (r_wal s1)) false (shf0 false 0) = true /\
     rec_used (w_recs (r_wal s1)) false (shf0 false 0) = true.
 Proof.
@@ -1415,11 +1437,11 @@ Definition wd_evs : list ev :=
 Lemma discovery_refuted_under_reorg :
   exists gap evs cfin hint fuel w' j,
     2 <= gap /\ b_height wg = 0%Z /\
-    run_ok shf0 gap 1 (rinit wg) evs /\
-    r_chain (run_from shf0 gap 1 (rinit wg) evs) = cfin /\
+    run_ok shf0 true gap 1 (rinit wg) evs /\
+    r_chain (run_from shf0 true gap 1 (rinit wg) evs) = cfin /\
     (forall i, pays_any cfin (shf0 false i) = true -> i + 1 + gap < two32) /\
     wal_restore shf0 fuel gap hint 0 cfin = Some w' /\
-    j < ks_next_e (w_ks (r_wal (run_from shf0 gap 1 (rinit wg) evs))) /\
+    j < ks_next_e (w_ks (r_wal (run_from shf0 true gap 1 (rinit wg) evs))) /\
     pays_any cfin (shf0 false j) = true /\
     ~ In (false, j) (ks_pubs (w_ks w')) /\
     (* the only premise of discovery_complete that fails: usage is not monotone *)
@@ -1427,7 +1449,7 @@ Lemma discovery_refuted_under_reorg :
 Proof.
   exists 2, wd_evs, wd_fin, 0, 20%nat.
   eexists. exists 3. split; [lia|]. split; [reflexivity|].
-  assert (Hok : run_ok shf0 2 1 (rinit wg) wd_evs).
+  assert (Hok : run_ok shf0 true 2 1 (rinit wg) wd_evs).
   { cbn [run_ok wd_evs].
     split; [split; [reflexivity | vm_compute; reflexivity]|].
     split; [split; [reflexivity | vm_compute; reflexivity]|].
@@ -1456,7 +1478,7 @@ Example discovery_with_hint_2 :
   exists w', wal_restore shf0 20 2 2 0 wd_fin = Some w' /\ In (false, 3) (ks_pubs (w_ks w')).
 Proof. eexists. split; [vm_compute; reflexivity | cbn; tauto]. Qed.
 
-(* D3: the index map is keyed by the child number only.  After an import that also materialised
+(* D3, the code as found (fx = false): the index map is keyed by the child number only.  After an import that also materialised
    internal addresses 0 and 1 (both used), the gap window of the external branch reads the internal
    addresses: index 2 is issued although neither external 0 nor external 1 has chain history *)
 Definition wc_used (br : bool) (i : N) : bool := br && (i <? 2).
@@ -1465,10 +1487,12 @@ Lemma index_collision_refuted :
   exists gap used ks i ks',
     ks_restore 20 gap 2 2 used = Some ks /\
     spec_refuse gap (used false) (ks_next_e ks) = true /\
-    next_addresses gap used (ks_reload ks) = KOk (i, ks').
+    next_addresses false gap used (ks_reload ks) = KOk (i, ks') /\
+    (* the repaired code refuses *)
+    next_addresses true gap used (ks_reload ks) = KErr EGapLimit.
 Proof.
   exists 2, wc_used. eexists. eexists. eexists.
-  split; [vm_compute; reflexivity|]. split; vm_compute; reflexivity.
+  split; [vm_compute; reflexivity|]. split; [vm_compute; reflexivity|]. split; vm_compute; reflexivity.
 Qed.
 
 (* non-vacuity: a history with requests of both classes, a payment, a reorg that keeps it, a restart *)
@@ -1480,8 +1504,8 @@ Definition we_evs : list ev :=
    ESync [wg; we_b1; we_b2]; EReload; ESync [wg; we_b1; we_b2']; ENew false false [wg; we_b1; we_b2']].
 
 Example run_ok_example :
-  run_ok shf0 2 1 (rinit wg) we_evs /\
-  r_issued (run_from shf0 2 1 (rinit wg) we_evs) = [(false, 3); (false, 2); (true, 1); (false, 0)].
+  run_ok shf0 true 2 1 (rinit wg) we_evs /\
+  r_issued (run_from shf0 true 2 1 (rinit wg) we_evs) = [(false, 3); (false, 2); (true, 1); (false, 0)].
 Proof.
   split; [|vm_compute; reflexivity]. cbn [run_ok we_evs].
   split; [split; [reflexivity | vm_compute; reflexivity]|].
@@ -1496,11 +1520,11 @@ Qed.
 
 (* ================================================================ statements used by Properties/C12.v *)
 
-Lemma run_ok_app : forall shf gap maxun evs s e,
-  run_ok shf gap maxun s (evs ++ [e]) ->
-  run_ok shf gap maxun s evs /\ ev_ok shf (run_from shf gap maxun s evs) e.
+Lemma run_ok_app : forall shf fx gap maxun evs s e,
+  run_ok shf fx gap maxun s (evs ++ [e]) ->
+  run_ok shf fx gap maxun s evs /\ ev_ok shf (run_from shf fx gap maxun s evs) e.
 Proof.
-  intros shf gap maxun evs. induction evs as [|x evs IH]; intros s e H.
+  intros shf fx gap maxun evs. induction evs as [|x evs IH]; intros s e H.
   - cbn in H. cbn. tauto.
   - cbn [app run_ok] in H. destruct H as [Hx H]. apply IH in H. cbn [run_ok run_from fold_left]. tauto.
 Qed.
@@ -1508,51 +1532,52 @@ Qed.
 Section Statements.
 Variable shf : bool -> N -> N.
 Hypothesis shf_inj : forall b i b' i', shf b i = shf b' i' -> b = b' /\ i = i'.
+Variable fx : bool.
 Variables gap maxun : N.
 Variable g : block.
 Hypothesis g_height : b_height g = 0%Z.
 
 Lemma reachable_Inv : forall evs,
-  run_ok shf gap maxun (rinit g) evs -> Inv shf (rrun shf gap maxun g evs).
-Proof. intros evs H. apply (Inv_run shf shf_inj gap maxun evs); [apply Inv_init; exact g_height | exact H]. Qed.
+  run_ok shf fx gap maxun (rinit g) evs -> Inv shf (rrun shf fx gap maxun g evs).
+Proof. intros evs H. apply (Inv_run shf shf_inj fx gap maxun evs); [apply Inv_init; exact g_height | exact H]. Qed.
 
 Lemma used_flag_run : forall evs filter e,
-  run_ok shf gap maxun (rinit g) evs ->
-  let s := rrun shf gap maxun g evs in
+  run_ok shf fx gap maxun (rinit g) evs ->
+  let s := rrun shf fx gap maxun g evs in
   In e (listing filter (w_recs (r_wal s))) ->
   ae_used e = if ae_stk e then pays_form (r_chain s) true (ae_sh e) else pays_any (r_chain s) (ae_sh e).
 Proof. intros evs filter e H s Hin. apply (used_flag_listing shf s filter e); [apply reachable_Inv; exact H | exact Hin]. Qed.
 
 Lemma used_flag_rec_run : forall evs stk sh,
-  run_ok shf gap maxun (rinit g) evs ->
-  let s := rrun shf gap maxun g evs in
+  run_ok shf fx gap maxun (rinit g) evs ->
+  let s := rrun shf fx gap maxun g evs in
   mine_of shf (w_ks (r_wal s)) sh = true ->
   rec_used (w_recs (r_wal s)) stk sh = pays_form (r_chain s) stk sh.
 Proof. intros evs stk sh H s Hm. apply (used_flag_rec shf s stk sh); [apply reachable_Inv; exact H | exact Hm]. Qed.
 
 Lemma issued_in_order : forall evs,
-  let s := rrun shf gap maxun g evs in
+  let s := rrun shf fx gap maxun g evs in
   decr (r_issued s) (ks_next_e (w_ks (r_wal s))) /\ NoDup (map snd (r_issued s)).
 Proof.
   intros evs s. assert (H : decr (r_issued s) (ks_next_e (w_ks (r_wal s)))).
-  { apply (issued_run shf gap maxun evs (rinit g)). exact I. }
+  { apply (issued_run shf fx gap maxun evs (rinit g)). exact I. }
   split; [exact H | exact (proj1 (decr_NoDup _ _ H))].
 Qed.
 
 Lemma listed_from_then_on : forall evs e stk sh,
-  run_ok shf gap maxun (rinit g) (evs ++ [e]) ->
-  let s := rrun shf gap maxun g evs in
+  run_ok shf fx gap maxun (rinit g) (evs ++ [e]) ->
+  let s := rrun shf fx gap maxun g evs in
   rec_get (w_recs (r_wal s)) stk sh <> None ->
   ~ loses s e stk sh ->
-  let s' := rstep shf gap maxun s e in
+  let s' := rstep shf fx gap maxun s e in
   rec_get (w_recs (r_wal s')) stk sh <> None /\ listed (w_recs (r_wal s')) stk sh = true.
 Proof.
   intros evs e stk sh H s Hp Hnl s'. apply run_ok_app in H. destruct H as [H He].
   pose proof (reachable_Inv evs H) as HI.
-  assert (Hp' : rec_get (w_recs (r_wal s')) stk sh <> None) by (exact (present_step shf gap maxun s e stk sh HI Hp Hnl)).
+  assert (Hp' : rec_get (w_recs (r_wal s')) stk sh <> None) by (exact (present_step shf fx gap maxun s e stk sh HI Hp Hnl)).
   split; [exact Hp'|].
   destruct (rec_get (w_recs (r_wal s')) stk sh) as [h|] eqn:G; [|congruence].
-  apply (listed_present shf s' stk sh h); [|exact G]. apply (Inv_step shf shf_inj gap maxun s e HI He).
+  apply (listed_present shf s' stk sh h); [|exact G]. apply (Inv_step shf shf_inj fx gap maxun s e HI He).
 Qed.
 
 End Statements.
